@@ -385,6 +385,7 @@ const preamble = `(declare-datatypes ((Ptr 0)) (((zz_nilptr) (zz_new (zz_new_id 
 (declare-fun zz_dyn (Iface) Int)
 (define-fun-rec zz_isnew ((p Ptr)) Bool (ite ((_ is zz_new) p) true (ite ((_ is zz_fld) p) (zz_isnew (zz_fld_base p)) (ite ((_ is zz_elem) p) (zz_isnew (zz_elem_base p)) false))))
 (assert (= (zz_dyn zz_ifnil) 0))
+(define-fun-rec zz_under ((a Ptr) (p Ptr)) Bool (or (= a p) (ite ((_ is zz_fld) a) (zz_under (zz_fld_base a) p) (ite ((_ is zz_elem) a) (zz_under (zz_elem_base a) p) false))))
 (define-fun zz_tdiv ((a Int) (b Int)) Int (ite (>= a 0) (div a b) (- (div (- a) b))))
 (define-fun zz_tmod ((a Int) (b Int)) Int (- a (* b (zz_tdiv a b))))
 `
@@ -520,6 +521,7 @@ func (d *Decls) typeID(t types.Type) *Term {
 	s := types.TypeString(t, nil)
 	if hasTypeParam(t) {
 		sym := "zz_tid_" + sanitize(typeStr(t))
+		d.tidTy[sym] = t
 		if !d.seen["fun:"+sym] {
 			d.declConst(sym, "Int")
 			d.facts = append(d.facts, mk("Bool", ">", mk("Int", sym), intLit(100000)))
@@ -550,6 +552,22 @@ func (d *Decls) typeID(t types.Type) *Term {
 	d.tids[s] = h
 	d.tidTy[s] = t
 	return intLit(int64(h))
+}
+
+// typeOfID maps a type-id term back to the Go type (when known)
+func (d *Decls) typeOfID(t *Term) types.Type {
+	if n, ok := isIntLit(t); ok {
+		for s, id := range d.tids {
+			if int64(id) == n {
+				return d.tidTy[s]
+			}
+		}
+		return nil
+	}
+	if len(t.Args) == 0 {
+		return d.tidTy[t.Op]
+	}
+	return nil
 }
 
 func hasTypeParam(t types.Type) bool {
